@@ -20,8 +20,12 @@ def to_flags_data(flags: int) -> FlagsData:
     flags_data: set[str] = set()
     if not flags:
         return flags_data
+    members, not_covered = enum._decompose(_CodeFlag, flags)  # type: ignore
+    # Bits which are not part of any known flag cannot be represented
+    if not_covered:
+        raise ValueError(f"Unknown flag bits: {not_covered:#x}")
     # Iterate through all flags, raising an exception if we hit any unknown ones
-    for f in enum._decompose(_CodeFlag, flags)[0]:  # type: ignore
+    for f in members:
         if f not in _CodeFlag:
             raise ValueError(f"Flag {f} is not a known flag")
         flags_data.add(f.name)
